@@ -14,20 +14,23 @@ def run_models(ctx):
     ctx.model_check("MC_C09Compress", "MC_cmp_quick.cfg" if quick else "MC_cmp_thorough.cfg", name="compression-sweeps",
                     require_actions=CMP_ACTIONS, timeout=1200)
     # 2. tensor-level arithmetic: the networks denote the dense algebra
-    ctx.model_check("MC_C09Algebra", "MC_alg_quick.cfg" if quick else "MC_alg_thorough.cfg", name="mps-algebra",
-                    require_actions=ALG_ACTIONS, timeout=2400)
-    if not quick:
+    if quick:
+        ctx.model_check("MC_C09Algebra", "MC_alg_quick.cfg", name="mps-algebra L=2 depth 2", require_actions=ALG_ACTIONS, timeout=600)
+        ctx.model_check("MC_C09Algebra", "MC_alg_quick3.cfg", name="mps-algebra L=3 depth 1", require_actions=ALG_ACTIONS, timeout=600)
+    else:
+        ctx.model_check("MC_C09Algebra", "MC_alg_thorough.cfg", name="mps-algebra L=3 depth 2", require_actions=ALG_ACTIONS, timeout=2400)
         ctx.model_check("MC_C09Algebra", "MC_alg_gens.cfg", name="mps-algebra-all-generators-L2 (+ chain = LTensor!Denote)",
                         require_actions=ALG_ACTIONS, timeout=1200)
         ctx.model_check("MC_C09Algebra", "MC_alg_gens4.cfg", name="generators-L4", timeout=1200)
     # 3. the models can fail: deliberate deviations must be caught by the named invariant
-    tests = [("MC_C09Compress", "MC_cmp_mut_zipupnocanon.cfg", "ValueKept", "zip-up without the pseudo-canonization truncates in a non-canonical gauge"),
-             ("MC_C09Compress", "MC_cmp_mut_capskiplast.cfg", "BondCap", "cap ignored on the last bond of the sweep"),
-             ("MC_C09Algebra", "MC_alg_mut_sub.cfg", "Denotes", "difference negating every tensor of the subtrahend"),
+    tests = [("MC_C09Compress", "MC_cmp_mut_capskiplast.cfg", "BondCap", "cap ignored on the last bond of the sweep"),
              ("MC_C09Algebra", "MC_alg_mut_expec.cfg", "QueryExact", "bra contracted with the operator's lower indices")]
     if not quick:
-        tests.append(("MC_C09Compress", "MC_cmp_mut_oversamplesameflip.cfg", "ValueKept",
-                      "oversampling first phase run in the same direction as the final sweep"))
+        tests += [("MC_C09Compress", "MC_cmp_mut_zipupnocanon.cfg", "ValueKept",
+                   "zip-up without the pseudo-canonization truncates in a non-canonical gauge"),
+                  ("MC_C09Compress", "MC_cmp_mut_oversamplesameflip.cfg", "ValueKept",
+                   "oversampling first phase run in the same direction as the final sweep"),
+                  ("MC_C09Algebra", "MC_alg_mut_sub.cfg", "Denotes", "difference negating every tensor of the subtrahend")]
     for mod, cfg, inv, what in tests:
         r = T.run_tlc(mod, cfg, ctx.spec_dir, workers=4, allow_violation=True, scratch=ctx.scratch, timeout=600)
         if r.violated != inv:
@@ -36,7 +39,7 @@ def run_models(ctx):
 
 
 def simulated_behaviours(ctx, n):
-    res = T.run_tlc("MC_C09Algebra", "MC_alg_sim.cfg", ctx.spec_dir, workers=1, coverage=False, simulate="num=%d" % n,
+    res = T.run_tlc("MC_C09Algebra", "MC_alg_sim.cfg" if ctx.tier == "quick" else "MC_alg_sim_thorough.cfg", ctx.spec_dir, workers=1, coverage=False, simulate="num=%d" % n,
                     depth=5, seed=17 + ctx.seed, scratch=ctx.scratch, timeout=1200)
     vals = T.parse_printed_json(res.output)
     out, prev = [], None
@@ -50,7 +53,7 @@ def simulated_behaviours(ctx, n):
 
 
 def compress_cases(ctx):
-    res = T.run_tlc("MC_C09Compress", "MC_cmp_emit.cfg", ctx.spec_dir, workers=1, coverage=False, scratch=ctx.scratch, timeout=600)
+    res = T.run_tlc("MC_C09Compress", "MC_cmp_emit_quick.cfg" if ctx.tier == "quick" else "MC_cmp_emit.cfg", ctx.spec_dir, workers=1, coverage=False, scratch=ctx.scratch, timeout=600)
     cases = [c for c in T.parse_printed_json(res.output) if isinstance(c, dict) and "method" in c]
     # canonical order (TLC's enumeration order is not part of the contract)
     cases.sort(key=lambda c: (c["L"], c["kind"], c["r"], c["method"], c["cap"], c["rev"]))
